@@ -231,7 +231,8 @@ fn ty_example(
                 let value = transformer.resolve(f.id)?;
                 fields.push(value)
             }
-            Ok(quote!(( #(#fields),* )))
+            // trailing commas so that a one-element tuple is `(x,)` and not the parenthesized `(x)`
+            Ok(quote!(( #(#fields,)* )))
         }
         scale_info::TypeDef::Primitive(def) => Ok(primitive_example(
             def,
